@@ -500,6 +500,34 @@ def check(repo):
     r5.require(n_prefix >= 20, repo.func(F.SRV, "Service.__init__"), "prefix floor",
                "only %d crash prefixes enumerated (expected >= 20): effect extraction broken" % n_prefix)
 
+    # ---------------------------------------------------------------- R13.6 upload flags recoverable from the server
+    r6 = Rule("R13.6", "a crash around an upload acknowledgement is healed: upload flags are rebuilt from the server's state on connect")
+    rules.append(r6)
+    from . import c11
+    fmodel = c11.FlagModel(repo, Rule("aux", "aux"))
+    it0 = c11.Interp(repo, fmodel, scanner)
+    c11._check_resync(repo, r6, fmodel, it0)
+    lw = repo.func(F.CLI, "Service.load_websocket")
+    called = [c for c in ast.walk(lw.node) if isinstance(c, ast.Call) and dotted(c.func) == "self." + c11.RESYNC_FN]
+    ok = False
+    for c in called:
+        a = c.args[0] if c.args else None
+        # the argument is the 'state' field of the server's init echo
+        if isinstance(a, ast.Name):
+            defs = [s_ for s_ in ast.walk(lw.node) if isinstance(s_, ast.Assign) and any(isinstance(t, ast.Name) and t.id == a.id for t in s_.targets)]
+            if defs and all(isinstance(d.value, ast.Call) and isinstance(d.value.func, ast.Attribute) and d.value.func.attr == "get" and d.value.args
+                            and isinstance(d.value.args[0], ast.Constant) and d.value.args[0].value == "state" for d in defs):
+                ok = True
+    r6.require(ok, lw, "resync on connect", "load_websocket no longer re-synchronises the upload flags from the 'state' field of the server's init echo")
+    for hname in ("handle_upload_config", "handle_upload_encrypted_database", "handle_keyword_search"):
+        h = repo.func(F.CLI, "Service." + hname)
+        cfg_h = cfg_of(h.node)
+        loads = {n.id for n in cfg_h.nodes if n.ast is not None and n.stmt is not None and any(
+            dotted(c.func) == "self.load_websocket" for c in calls_in_order(n.stmt if n.kind != "test" else n.ast))}
+        tests = [n.id for n in cfg_h.nodes if n.kind == "test"]
+        r6.require(bool(loads) and all(not cfg_h.can_reach(cfg_h.entry, t, avoid=loads) for t in tests), h, "connect before flag tests",
+                   "%s tests the upload flags before connecting (and re-synchronising them from the server)" % hname)
+
     # state rewrites outside creation (close_service on both sides, echo handlers on the client) use write_service_meta:
     # covered by R13.3 because they go through the same function; record the call sites
     sites = 0
